@@ -1,8 +1,11 @@
 (* C11 — chmod/chown change exactly the selected entries to exactly the requested value.
    Expression level: the mirror of sys::mode against the documented grammar
-   [dfa]:[ugoa][-+=][rwx](,...)*.  (Tree level: Memfs/Chmod*.v, see DESIGN §7 C11.) *)
+   [dfa]:[ugoa][-+=][rwx](,...)*.  Tree level (Memfs/ChmodFacts.v): chown sets the ids of exactly the entries its
+   traversal yields and changes nothing else; chmod changes nothing but mode fields, and only of entries its traversal
+   names. (Which entries a traversal yields is C08's subject; the value a mode becomes is the expression level.) *)
+From stdpp Require Import gmap.
 From Coq Require Import List NArith.
-From RV Require Import Base.Str Chmod.Sym Chmod.SymFacts.
+From RV Require Import Base.Str Path.Helpers Path.Expand Chmod.Sym Chmod.SymFacts Memfs.State Memfs.Ops Memfs.Walk Memfs.WalkOps Memfs.ChmodFacts.
 Local Open Scope N_scope.
 
 (* any number of well-formed clauses: every applicable clause is applied, in order *)
@@ -53,3 +56,22 @@ Theorem C11_first_clause_empty_who : forall k m cl rest,
   sym_mode k m 0 (map target_char (cl_targets cl) ++ ch_colon :: op_char (cl_op cl) :: rest) = inr EChmodGroup.
 Proof. exact first_clause_empty_who. Qed.
 Print Assumptions C11_first_clause_empty_who.
+
+(* tree level: chown sets the requested ids on exactly the yielded entries, and nothing else changes *)
+Theorem C11_chown_exact : forall env m s o m', chown_op env m s o = Done (m', inl tt) ->
+  exists p evs es, resolve env m s = inl p /\
+    walk (m_ents m) (w_follow (w_max_depth default_wopts (if co_recursive o then None else Some 0%nat)) (co_follow o)) no_pre p = inl (Done evs) /\
+    oks_until_err (items_of evs) = (es, None) /\
+    (forall q, m_ents m' !! q = if bool_decide (q ∈ map e_path es) then (fun x => set_owner x (co_uid o) (co_gid o)) <$> (m_ents m !! q) else m_ents m !! q) /\
+    m_data m' = m_data m /\ m_cwd m' = m_cwd m /\ m_root m' = m_root m.
+Proof. exact chown_exact. Qed.
+Print Assumptions C11_chown_exact.
+
+(* tree level: whatever chmod returns, it changed nothing but mode fields, and only of entries its traversal named *)
+Theorem C11_chmod_frame : forall env m s o m' r, (forall q t, m_ents m !! q = Some t -> e_path t = q) -> chmod_op env m s o = Done (m', r) ->
+  exists T : list (list (list N)), chmod_rel (fun q => q ∈ T) m m' /\
+    (forall p evs, resolve env m s = inl p ->
+       walk (m_ents m) (w_dirs_first (w_follow (w_max_depth (w_contents_first default_wopts) (if ch_recursive o then None else Some 0%nat)) (ch_follow o)))
+            (chmod_pre_check o) p = inl (Done evs) -> T = ev_entry_paths evs).
+Proof. exact chmod_frame. Qed.
+Print Assumptions C11_chmod_frame.
